@@ -534,6 +534,10 @@ def _empty_present(o):
 @method('dict.clear')
 def dict_clear(eng, args, kwargs, st, node):
     o = st.heap[args[0].loc]
+    from . import flagdict
+    if isinstance(o, flagdict.HFlagDict):
+        flagdict.clear(eng, args[0], o, st)
+        return [(NONE, st)]
     if isinstance(o, HMap):
         st.heap[args[0].loc] = HMap(_empty_present(o), o.vals, o.vty)
         return [(NONE, st)]
@@ -541,8 +545,23 @@ def dict_clear(eng, args, kwargs, st, node):
     return [(NONE, st)]
 
 
+@func(dict)
+def m_dict(eng, args, kwargs, st, node):
+    from . import flagdict
+    if not args and not kwargs:
+        return [(st.alloc(HDict({})), st)]
+    if len(args) == 1 and isinstance(args[0], VRef) and isinstance(st.heap.get(args[0].loc), flagdict.HFlagDict) and not kwargs:
+        return [(flagdict.shallow_copy(eng, args[0], st), st)]
+    if not args:
+        return [(st.alloc(HDict(dict(kwargs))), st)]
+    raise Undecided('dict(%r)' % (args,), node)
+
+
 @method('dict.copy')
 def dict_copy(eng, args, kwargs, st, node):
+    from . import flagdict
+    if isinstance(st.heap[args[0].loc], flagdict.HFlagDict):
+        return [(flagdict.shallow_copy(eng, args[0], st), st)]
     return [(st.alloc(HDict(st.heap[args[0].loc].entries)), st)]
 
 
@@ -550,6 +569,10 @@ def dict_copy(eng, args, kwargs, st, node):
 def dict_update(eng, args, kwargs, st, node):
     d, other = args[0], args[1]
     o = st.heap[d.loc]
+    from . import flagdict
+    if isinstance(o, flagdict.HFlagDict) and isinstance(other, VRef) and isinstance(st.heap[other.loc], flagdict.HFlagDict):
+        flagdict.update(eng, d, o, st.heap[other.loc], st, node)
+        return [(NONE, st)]
     if isinstance(other, VRef) and isinstance(st.heap[other.loc], HDict):
         e = dict(o.entries)
         e.update(st.heap[other.loc].entries)
@@ -589,6 +612,9 @@ def dict_get_m(eng, args, kwargs, st, node):
 @method('set.add')
 def set_add(eng, args, kwargs, st, node):
     s, x = args
+    if isinstance(x, VVal):
+        from . import flagdict
+        x = VStr(flagdict.val_str(eng, x.t))
     o = st.heap[s.loc]
     st.heap[s.loc] = HSet(smt.mk('store', [o.arr, x.t, TRUE], o.arr.sort))
     return [(NONE, st)]
@@ -597,6 +623,9 @@ def set_add(eng, args, kwargs, st, node):
 @method('set.remove')
 def set_remove(eng, args, kwargs, st, node):
     s, x = args
+    if isinstance(x, VVal):
+        from . import flagdict
+        x = VStr(flagdict.val_str(eng, x.t))
     o = st.heap[s.loc]
     has = smt.mk('select', [o.arr, x.t], BOOL)
     out = []
@@ -615,6 +644,35 @@ def set_discard(eng, args, kwargs, st, node):
     o = st.heap[s.loc]
     st.heap[s.loc] = HSet(smt.mk('store', [o.arr, x.t, FALSE], o.arr.sort))
     return [(NONE, st)]
+
+
+import copy as _copy
+
+
+@func(_copy.deepcopy)
+def m_deepcopy(eng, args, kwargs, st, node):
+    v = args[0]
+    from . import flagdict
+    if isinstance(v, VRef) and isinstance(st.heap.get(v.loc), flagdict.HFlagDict):
+        eng.trusted_used.add('stdlib:copy.deepcopy of a state dict: a new dict with equal flags and a NEW set object with equal '
+                             'members under REQUIRES')
+        return [(flagdict.deep_copy(eng, v, st), st)]
+    if isinstance(v, VPy) and isinstance(v.obj, dict):
+        return [(flagdict.from_concrete(eng, v.obj, st), st)]
+    raise Undecided('copy.deepcopy(%r)' % (v,), node)
+
+
+@func(set)
+def m_set(eng, args, kwargs, st, node):
+    if not args:
+        from . import flagdict
+        return [(st.alloc(HSet(flagdict.const_arr(False))), st)]
+    v = args[0]
+    if isinstance(v, VRef) and isinstance(st.heap.get(v.loc), HSet):
+        return [(st.alloc(HSet(st.heap[v.loc].arr)), st)]     # a new set object with the same members
+    if isinstance(v, (VBool, VInt)):
+        return eng._safe_result(FALSE, NONE, TypeError, st, node)      # set(True): 'bool' object is not iterable
+    raise Undecided('set(%r)' % (v,), node)
 
 
 # ----------------------------------------------------------------- builtins
